@@ -22,13 +22,16 @@ pub enum Error {
     Priors(String),
     #[error("algorithm not converged {0}")]
     NotConverged(String),
-    // ShapeError doesn't implement serde traits, and deriving them remotely on a complex error
-    // type isn't really feasible, so we skip this variant.
-    #[cfg_attr(feature = "serde", serde(skip))]
-    #[error("invalid ndarray shape {0}")]
-    NdShape(#[from] ShapeError),
     #[error("not enough samples")]
     NotEnoughSamples,
     #[error("The number of samples do not match: {0} - {1}")]
     MismatchedShapes(usize, usize),
+    // ShapeError doesn't implement serde traits, and deriving them remotely on a complex error
+    // type isn't really feasible, so we skip this variant. It has to stay the LAST variant: the
+    // derived serialiser numbers variants by position among all variants, the derived deserialiser
+    // by position among the non-skipped ones, so every variant declared after a skipped one would
+    // come back as a different variant (or not at all) from index-based formats such as bincode.
+    #[cfg_attr(feature = "serde", serde(skip))]
+    #[error("invalid ndarray shape {0}")]
+    NdShape(#[from] ShapeError),
 }
